@@ -802,6 +802,32 @@ def get_index_variant(indices: IndexType) -> IndexVariant:
     return variant
 
 
+def as_float_if_needed(a: np.ndarray) -> np.ndarray:
+    """Return real data in a floating point type of at least double precision.
+
+    Tensors denote arrays of real numbers whatever numpy type stores them.
+    Sums of products computed in a boolean, integer or single precision storage
+    type wrap around, saturate or lose precision, so the kernels convert such
+    operands first. Boolean, integer and single precision arrays are converted
+    with :func:`numpy.result_type` against :class:`numpy.float64`; arrays that are
+    already double precision (or wider), complex arrays and non-numeric arrays
+    are returned unchanged, without a copy.
+
+    Parameters
+    ----------
+    a:
+        Array (or scipy sparse matrix) to convert.
+    """
+    if not hasattr(a, "dtype"):
+        a = np.asarray(a)
+    if a.dtype.kind not in "biuf":
+        return a
+    wide = np.result_type(a.dtype, np.float64)
+    if a.dtype == wide:
+        return a
+    return a.astype(wide)
+
+
 def get_mttkrp_factors(
     U: Union[ttb.ktensor, Sequence[np.ndarray]], n: Union[int, np.integer], ndims: int
 ) -> Sequence[np.ndarray]:
